@@ -405,11 +405,9 @@ def define(fam, tree):
 
 
 def tolerance(form, backend):
-    if backend == 'numpy':
-        return 'numeric'
-    if form in ('p∇f', 'a∇f'):
-        return 'torch'            # numeric differentiation on the torch backend: the looser of the two
-    return 'torch'
+    # `p∇f` / `a∇f` on the torch backend is numeric differentiation of a function evaluated in single precision: judged
+    # with the looser of the two tolerances, like autograd
+    return 'numeric' if backend == 'numpy' else 'torch'
 
 
 def snippet(backend, fam, env, tree, form, p):
